@@ -80,6 +80,10 @@ class Spec:
         the generic byte-level reduction of hex fields.  Default: none."""
         return []
 
+    def generated_files(self):
+        """the regenerated Lean files this property's theorems and driver ops depend on"""
+        return list(core.CORE_GENERATED) + list(getattr(self, "extra_generated", []))
+
     def harness_tags(self):
         """extra build tags enabling hook-dependent harness files (the hook files must exist in the tree)"""
         return []
@@ -368,9 +372,13 @@ class Run:
             # 1. regenerated facts
             if spec.needs_factx:
                 ok, lg = core.run_factx(rd)
-                self.cov["factx_ok"] = ok
-                if not ok:
-                    self.problems.append({"what": "fact extraction failed (source shape not recognised)", "log": lg[-1500:]})
+                needed = set(spec.generated_files())
+                bad = sorted(core.LAST_FACTX_FAILED & needed)
+                self.cov["factx_ok"] = not bad
+                if core.LAST_FACTX_FAILED - needed:
+                    self.cov["factx_failed_elsewhere"] = sorted(core.LAST_FACTX_FAILED - needed)
+                if bad:
+                    self.problems.append({"what": "fact extraction failed (source shape not recognised) for %s" % bad, "log": lg[-1500:]})
             try:
                 r = spec.pregen(rd)
                 pok, plog = (True, "") if r is None else r
@@ -444,7 +452,11 @@ class Run:
                                     self.problems.append({"what": "race build of the harness failed", "log": rlog[-800:]})
                                     continue
                             use = vh_race
-                        lines = core.gen_cases(vh, st.gen, self.seed + k * 7919, st.n, self.tier) if st.gen else []
+                        try:
+                            lines = core.gen_cases(vh, st.gen, self.seed + k * 7919, st.n, self.tier) if st.gen else []
+                        except Exception as e:
+                            self.problems.append({"what": "generator %s failed (correspondence stream %s did not run)" % (st.gen, st.name), "log": repr(e)[-800:]})
+                            continue
                         if k == 0 and corpus:
                             lines = corpus + lines
                         if lines:
